@@ -112,6 +112,12 @@ def gen_cases(tier, rng):
                         if k == "bool" or rng.random() < 0.5:
                             hb = [hexbytes(rng, k, span if k == "bool" else g)]
                         cases.append(" ".join(["ld%s" % cfg, variant, k, str(o), str(rng.randrange(256)), str(n)] + hb))
+        # long double loads (the 10 value bytes of the x87 format; the value keeps every bit of its 64-bit mantissa): 1 + 2^-63,
+        # the largest finite value / 4, a denormal, pi, -0.0
+        for img in ("0100000000000080ff3f", "ffffffffffffffbffc7f", "01000000000000000000", "35c26821a2da0fc90040", "00000000000000000080"):
+            for variant in ("deref", "tain", "cvv", "cvp"):
+                for o in (128, 4096 - 16):
+                    cases.append("ld%s %s ldouble %d %d 0 %s" % (cfg, variant, o, rng.randrange(256), img))
         # function pointers stored through *p: the cell receives the function-table index
         for off in (128, 131, 4096 - c["pw"], 8192):
             for k in (0, 1, 2, 3):
